@@ -496,11 +496,17 @@ def _read_status(ast, path, data_clean, betas, row):
         return float(v[row])
 
     n = ast
+    unread = False
     for depth, p in enumerate(path):
         op = n[0] if isinstance(n, list) and n and isinstance(n[0], str) else None
         rest = path[depth:]
+        if unread and op == 'loglogit' and rest[0] in (2, 3):
+            # the formula does not read this branch on this row, but LogLogit.audit evaluates the choice and
+            # every availability condition of every logit node on all rows before anything is computed
+            return 'unread-but-audited'
         if op in ('and', 'or') and rest[0] == 2:
-            return 'ambiguous'
+            if not unread:
+                return 'ambiguous'
         if op == 'elem' and rest[0] == 2:
             i = rest[1]
             try:
@@ -508,7 +514,7 @@ def _read_status(ast, path, data_clean, betas, row):
             except Exception:
                 return 'ambiguous'
             if int(n[2][i][0]) != k:
-                return 'unread'
+                unread = True
         if op == 'condsum' and rest[0] == 1 and rest[2] == 1:
             i = rest[1]
             try:
@@ -516,24 +522,17 @@ def _read_status(ast, path, data_clean, betas, row):
             except Exception:
                 return 'ambiguous'
             if c == 0:
-                return 'unread'
-        if op == 'loglogit':
-            if rest[0] == 1:  # utility of alternative i
-                i = rest[1]
-                if n[2] is not None:
-                    try:
-                        a = val(n[2][i][1])
-                    except Exception:
-                        return 'ambiguous'
-                    if a == 0:
-                        return 'unread'
-            if rest[0] == 2:
-                pass  # availabilities are read
-        if op in ('mul', 'div', 'pow', 'min', 'max'):
-            # the engine may skip work on zero operands in some operators: only arithmetic we know to be strict
-            pass
+                unread = True
+        if op == 'loglogit' and rest[0] == 1 and n[2] is not None:
+            i = rest[1]
+            try:
+                a = val(n[2][i][1])
+            except Exception:
+                return 'ambiguous'
+            if a == 0:
+                unread = True
         n = n[p]
-    return 'read'
+    return 'unread' if unread else 'read'
 
 
 def _missing_case(case, rec):
@@ -563,6 +562,7 @@ def _missing_case(case, rec):
     nrows = len(j['value'])
     row = rr.randrange(nrows)
     mode = case['i'] % 3
+    audited = False
     # a fresh column carrying the code on one row
     col = 'm_col'
     data = {k: list(v) for k, v in base['data'].items()}
@@ -592,6 +592,7 @@ def _missing_case(case, rec):
         if st == 'ambiguous':
             rec.c('missing_ambiguous_not_judged')
             return
+        audited = st == 'unread-but-audited'
         expect = 'error' if st == 'read' else 'harmless'
         where = f'{"read" if st == "read" else "unread"}-under-{parent}.{slot}'
         # the value on other rows must stay regular
@@ -626,7 +627,12 @@ def _missing_case(case, rec):
             else:
                 rec.c('missing_read_error_raised')
         else:
-            if res['outcome'] != 'ok':
+            if res['outcome'] != 'ok' and audited:
+                rec.violation('C12/missing-data-in-unread-branch-read-by-logit-audit',
+                              f'code {code} sits inside a choice / availability condition of a logit that the formula does not '
+                              f'evaluate on row {row} (enclosing Elem / ConditionalSum / unavailable alternative), but the audit of '
+                              f'LogLogit evaluates it on all rows: {res["type"]}: {res["msg"][:200]}', witness)
+            elif res['outcome'] != 'ok':
                 rec.violation(f'C12/missing-data-unread-raises-{entry}',
                               f'code {code} sits in a position not read on row {row} ({where}) but {res["type"]}: {res["msg"][:200]}', witness)
             else:
